@@ -310,6 +310,13 @@ theorem PQ.AllStates.head {p : PQ α → Prop} {q : PQ α} {ops : List Op} (h : 
   | nil => exact h
   | cons o os => exact h.1
 
+theorem PQ.AllStates.last {p : PQ α → Prop} :
+    ∀ (ops : List Op) (q : PQ α), PQ.AllStates p q ops → p (q.run ops).1 := by
+  intro ops
+  induction ops with
+  | nil => intro q h; exact h
+  | cons o os ih => intro q h; simpa [PQ.run] using ih _ h.2
+
 /-- the queue after `newPendingQueue(rr)` and `setInterleaving(true)` -/
 def rrFresh : PQ α := ((PQ.new .rr : PQ α).setInterleaving true).1
 
